@@ -70,6 +70,7 @@ class GenDir:
         self.inconsistent = inconsistent
         self.repeat_shells = repeat_shells     # a component may repeat a shell another component of the element already has
         self.refs = {'molssi_bse_schema': _schema('references')}
+        self.token = str(rng.randrange(10**6))
         nbasis = nbasis or rng.randint(1, 3)
         fams = ['famA', 'famb'][:rng.randint(1, 2)]
         for i in range(nbasis):
@@ -99,8 +100,11 @@ class GenDir:
         self.files[rel] = {'molssi_bse_schema': _schema('component'), 'description': 'component ' + rel,
                            'data_source': 'generated', 'elements': els}
         for k in refkeys:
-            self.refs.setdefault(k, {'_entry_type': 'article', 'authors': ['Doe, J.', 'Roe, R.'], 'title': 'Title of ' + k,
-                                     'journal': 'J. Gen.', 'volume': '1', 'pages': '1-2', 'year': '2020', 'doi': '10.0/' + k})
+            # the same key names in every generated directory, with contents that differ from directory to directory
+            self.refs.setdefault(k, {'_entry_type': 'article', 'authors': ['Doe, J.', 'Roe, R.', 'Dir%s, D.' % self.token],
+                                     'title': 'Title of %s in directory %s' % (k, self.token),
+                                     'journal': 'J. Gen.', 'volume': str(1 + int(self.token) % 90), 'pages': '1-2', 'year': '2020',
+                                     'doi': '10.%s/%s' % (self.token, k)})
 
     def _make_basis(self, i, family):
         rng = self.rng
